@@ -802,7 +802,22 @@ def series_ext_steps(p, level="full"):
 
 
 def ext_steps_for(p, level="full"):
-    """row-wise alphabet (C36) + the extended alphabet"""
+    """row-wise alphabet (C36) + the extended alphabet.  level 'mini' = the handful of prefixes that change the KIND of metadata
+    (a column -> Series, set_index / reset_index -> other index, an empty selection, an unknown categorical)"""
+    if level == "mini":
+        if isinstance(p, pd.Series):
+            return series_steps(p, "core")
+        if not isinstance(p, pd.DataFrame) or not p.columns.is_unique or not all(isinstance(c, str) for c in p.columns):
+            return []
+        cols = list(p.columns)
+        num = [c for c in cols if kind_of(p[c].dtype) in NUMERIC]
+        oth = [c for c in cols if kind_of(p[c].dtype) in ("str", "int")]
+        out = [C(c) for c in cols]
+        if num:
+            out += [call(X, "set_index", num[0]), call(X, "reset_index"), ("item", X, B(">", C(num[0]), L(100)))]
+        if oth:
+            out += [call(X, "astype", D((oth[-1], "category")))]
+        return out
     if isinstance(p, pd.DataFrame):
         if not p.columns.is_unique or isinstance(p.columns, pd.MultiIndex):
             return []
@@ -810,3 +825,207 @@ def ext_steps_for(p, level="full"):
     if isinstance(p, pd.Series):
         return _dedup(series_steps(p, level) + series_ext_steps(p, level))
     return []
+
+
+# ---------------------------------------------------------------------------- programs as Python source (for repro lines)
+def _lit_src(v):
+    if isinstance(v, tuple) and v:
+        t = v[0]
+        if t == "l":
+            return "[" + ", ".join(_lit_src(i) for i in v[1]) + "]"
+        if t == "d":
+            return "{" + ", ".join(f"{_lit_src(k)}: {_lit_src(w)}" for k, w in v[1]) + "}"
+        if t == "nan":
+            return "float('nan')"
+        if t == "ts":
+            return f"pd.Timestamp({v[1]!r})"
+        if t == "td":
+            return f"pd.Timedelta({v[1]!r})"
+        if t == "fn":
+            return FN_SRC[v[1]]
+        if t == "tup":
+            return "(" + ", ".join(_lit_src(i) for i in v[1]) + ",)"
+    return repr(v)
+
+
+FN_SRC = {
+    "inc": "(lambda v: v + 1)", "ident": "(lambda v: v)", "dbl": "(lambda v: v * 2)", "tostr": "(lambda v: f'<{v}>')", "strlen": "len",
+    "isodd": "(lambda v: bool(v % 2))", "rowsum": "(lambda r: r['a'] + r['g'])", "rowstr": "(lambda r: f\"{r['a']}-{r['g']}\")", "upper": "str.upper",
+    "sfx": "(lambda c: f'{c}_r')",
+}
+
+
+def _arg_src(a, x, lib, dask):
+    if isinstance(a, tuple) and a and a[0] == "e":
+        return to_src(a[1], x, lib, dask)
+    if isinstance(a, tuple) and a and a[0] == "el":
+        return "[" + ", ".join(to_src(i, x, lib, dask) for i in a[1]) + "]"
+    return _lit_src(a)
+
+
+def _args_src(args, kwargs, x, lib, dask, extra=()):
+    parts = [_arg_src(a, x, lib, dask) for a in args] + [f"{k}={_arg_src(v, x, lib, dask)}" for k, v in kwargs] + list(extra)
+    return ", ".join(parts)
+
+
+def to_src(e, x="x", lib="pd", dask=False):
+    """Python source of an expression over the variable x (pandas flavour, or dask flavour with meta=/compute=False)"""
+    t = e[0]
+    r = lambda sub: to_src(sub, x, lib, dask)  # noqa: E731
+    if t == "x":
+        return x
+    if t == "lit":
+        return _lit_src(e[1])
+    if t == "col":
+        return f"{r(e[1])}[{e[2]!r}]"
+    if t == "cols":
+        return f"{r(e[1])}[{list(e[2])!r}]"
+    if t == "item":
+        return f"{r(e[1])}[{r(e[2])}]"
+    if t == "loc":
+        return f"{r(e[1])}.loc[{r(e[2])}]"
+    if t == "bin":
+        return f"({r(e[2])} {e[1]} {r(e[3])})"
+    if t == "un":
+        return f"abs({r(e[2])})" if e[1] == "abs" else f"({e[1]}{r(e[2])})"
+    if t == "call":
+        return f"{r(e[1])}.{e[2]}({_args_src(e[3], e[4], x, lib, dask)})"
+    if t == "acc":
+        base = f"{r(e[1])}.{e[2]}.{e[3]}"
+        return base if e[4] is None else f"{base}({_args_src(e[4], e[5], x, lib, dask)})"
+    if t == "accitem":
+        k = e[3]
+        return f"{r(e[1])}.{e[2]}[{'slice' + repr(tuple(k[1:])) if isinstance(k, tuple) else repr(k)}]"
+    if t == "udf":
+        extra = [f"meta=META"] if dask else []
+        return f"{r(e[1])}.{e[2]}({FN_SRC[e[3]]}{', ' if (e[5] or extra) else ''}{_args_src((), e[5], x, lib, dask, extra)})"
+    if t == "attr":
+        return f"{r(e[1])}.{e[2]}"
+    if t == "lib":
+        return f"{lib}.{e[1]}({_args_src(e[2], e[3], x, lib, dask)})"
+    if t == "daskonly":
+        return f"{r(e[1])}.{e[2]}({_args_src(e[3], e[4], x, lib, dask)})" if dask else r(e[1])
+    if t == "head":
+        return f"{r(e[1])}.{e[2]}({e[3]}{', compute=False' if dask else ''})"
+    if t == "locs":
+        return f"{r(e[1])}.loc[{_lit_src(e[2])}:{_lit_src(e[3])}]"
+    if t == "iloc":
+        return f"{r(e[1])}.iloc[:, {e[2]}:{e[3]}]"
+    raise ValueError(t)
+
+
+def program_src(prog, lib="pd", dask=False, var="x"):
+    """statements 'x = <step>' applying the program to the variable x"""
+    return "; ".join(f"{var} = {to_src(step, var, lib, dask)}" for step in prog)
+
+
+# ---------------------------------------------------------------------------- optimizer alphabet (C43)
+def opt_steps_for(p, level="full"):
+    """steps chosen to trigger the optimizer's rewrites: projection / filter pushdown through assign, rename, astype, fillna, arithmetic,
+    filters with reductions in the predicate, OR-predicates with a common AND part, shadowing assigns, DAG-shaped steps that use x twice,
+    reductions / groupby / set_index / sort_values / merge as producers and consumers.  level 'ext' adds the non-row-wise producers."""
+    out = []
+    if isinstance(p, pd.Series):
+        k = kind_of(p.dtype)
+        out = [call(X, "rename", "r"), call(X, "to_frame"), call(X, "count"), ("item", X, call(X, "notnull")), call(X, "isin", LS(1, 2, "x", 0.5)), call(X, "nunique")]
+        if k in NUMERIC:
+            out += [B("+", X, L(1)), B(">", X, L(3)), ("item", X, B(">", X, L(3))), ("item", X, B(">", X, call(X, "mean"))), call(X, "sum"), call(X, "max"),
+                    call(X, "astype", "float64"), call(X, "fillna", 0), B("+", X, X), B("-", X, call(X, "min"))]
+        elif k == "str":
+            out += [acc(X, "str", "upper"), acc(X, "str", "len"), ("item", X, B("==", X, L("x"))), B("+", X, X)]
+        elif k == "bool":
+            out += [("un", "~", X), call(X, "sum"), ("item", X, X)]
+        elif k == "dt":
+            out += [prop(X, "dt", "day"), ("item", X, B(">", X, L(("ts", "2020-01-05")))), call(X, "max")]
+        elif k == "cat":
+            out += [prop(X, "cat", "codes"), ("item", X, B("==", X, L("x")))]
+        return _dedup(out)
+    if not isinstance(p, pd.DataFrame) or not p.columns.is_unique or not all(isinstance(c, str) for c in p.columns) or len(p.columns) == 0:
+        return []
+    cols = list(p.columns)
+    kinds = {c: kind_of(p[c].dtype) for c in cols}
+    num = [c for c in cols if kinds[c] in ("int", "float", "nullable")]
+    oth = [c for c in cols if c not in num]
+    out += [C(cols[-1]), ("cols", X, (cols[-1], cols[0])), ("cols", X, (cols[0],))]
+    if oth:
+        out += [C(oth[0])]
+    if not num:
+        return _dedup(out + [("item", X, call(C(cols[0]), "notnull")), call(X, "assign", z=E(C(cols[0]))), call(X, "count"), call(X, "rename", columns=D((cols[0], "Q")))])
+    n0 = num[0]
+    n1 = num[1] if len(num) > 1 else num[0]
+    out += [C(n0), ("cols", X, (n0, n1)) if n0 != n1 else C(n0)]
+    # filters
+    out += [
+        ("item", X, B(">", C(n0), L(3))), ("item", X, B("==", C(n1), L(0))), ("item", X, B(">", C(n0), call(C(n0), "mean"))),
+        ("item", X, B("&", B(">", C(n0), L(2)), B("<", C(n1), L(2)))), ("item", X, B("|", B(">", C(n0), L(5)), B("==", C(n1), L(1)))),
+        ("item", X, B("|", B("&", B(">", C(n0), L(2)), B("<", C(n1), L(2))), B("&", B(">", C(n0), L(2)), B("==", C(n1), L(2))))),
+        ("item", X, B(">", C(n0), L(100))), ("item", X, call(C(n0), "isin", LS(1, 4, 6))), ("loc", X, B("<=", C(n0), L(4))),
+        ("item", X, B(">", C(n0), call(C(n1), "max"))),
+    ]
+    for c in oth:
+        if kinds[c] == "bool":
+            out.append(("item", X, C(c)))
+        if kinds[c] == "str":
+            out.append(("item", X, B("==", C(c), L("x"))))
+    for c in num:
+        if kinds[c] in ("float", "nullable"):
+            out.append(("item", X, call(C(c), "notnull")))
+    # assigns
+    out += [
+        call(X, "assign", z=E(B("+", C(n0), L(1)))), call(X, "assign", **{n0: E(B("*", C(n0), L(2)))}), call(X, "assign", z=E(B("+", C(n0), C(n1)))),
+        call(X, "assign", z=E(B(">", C(n0), L(3)))), call(X, "assign", z=E(call(C(n0), "sum"))), call(X, "assign", z=E(B("-", C(n0), call(C(n0), "mean")))),
+        call(X, "assign", y=E(B("-", C(n0), L(1))), z=E(B("*", C(n1), L(2)))),
+    ]
+    if n0 != n1:
+        out += [call(X, "assign", **{n1: E(C(n0)), n0: E(C(n1))}), call(X, "rename", columns=D((n0, n1), (n1, n0)))]
+    # element-wise
+    out += [B("+", X, L(1)), B("*", X, L(2)), call(X, "fillna", 0), call(X, "astype", D((n0, "float64"))), call(X, "rename", columns=D((n0, "A"))),
+            call(X, "drop", columns=LS(cols[-1])), call(X, "dropna"), call(X, "where", E(B(">", C(n0), L(3)))), call(X, "isna"), call(X, "clip", 2, 5)]
+    # DAG-shaped steps (x has several consumers)
+    out += [B("+", C(n0), C(n1)), call(C(n0), "where", E(B(">", C(n1), L(0))), E(B("*", C(n0), L(2)))), ("item", ("cols", X, (n0, cols[-1])), B(">", C(n0), L(3))),
+            ("item", C(n1), B(">", C(n0), L(3))), B("+", ("cols", X, (n0,)), ("cols", X, (n0,))), B(">", C(n0), call(C(n1), "max")),
+            B("/", C(n0), call(C(n0), "sum")), ("item", B("+", C(n0), L(1)), B(">", C(n1), L(0)))]
+    # consumers that end a pipeline
+    out += [call(X, "sum", numeric_only=True), call(X, "count"), call(C(n0), "sum"), call(X, "max", numeric_only=True), attr(X, "index"), call(X, "nunique")]
+    if level == "ext" and n0 != n1:
+        G = call(X, "groupby", n1)
+        OTHER = call(("cols", X, (n1, n0)), "rename", columns=D((n0, "w")))
+        out += [call(G, "sum", numeric_only=True), call(("col", G, n0), "sum"), call(G, "agg", D((n0, "sum"))), call(G, "agg", D((n0, LS("min", "max")))), call(G, "count"),
+                call(("col", G, n0), "agg", LS("min", "max")), call(G, "size"), call(("cols", G, (n0,)), "mean"), call(call(X, "groupby", LS(n1, n0)), "size"),
+                call(X, "set_index", n0), call(X, "set_index", n1), call(X, "sort_values", n0), call(X, "sort_values", LS(n1, n0), ascending=False),
+                call(X, "merge", E(OTHER), on=n1), call(X, "merge", E(OTHER), on=n1, how="left"), call(X, "merge", E(OTHER), left_on=n0, right_on="w", how="outer"),
+                call(X, "merge", E(("item", OTHER, B(">", C("w", OTHER), L(3)))), on=n1),
+                call(X, "drop_duplicates", subset=LS(n1)), call(C(n1), "value_counts"), call(C(n1), "unique"), call(X, "cumsum"), call(call(X, "rolling", 2), "sum"),
+                call(X, "shift", 1), daskonly(X, "repartition", npartitions=2), lib("concat", ("el", (X, X))), call(X, "describe")]
+    return _dedup(out)
+
+
+def opt_ext_steps_for(p, level="full"):
+    return opt_steps_for(p, "ext")
+
+
+UNORDERED_SIGS = ("merge", "join", "drop_duplicates", "unique", "value_counts", "set_index", "sort_values", "concat", "shuffle", "mode", "nlargest", "nsmallest")
+NOINDEX_SIGS = ("merge", "drop_duplicates", "unique", "describe")
+
+
+def compare_mode(prog):
+    """(ordered, check_index) that pandas/dask promise for the result of this program (DESIGN 5, DataFrames common base)"""
+    names = set()
+    for step in prog:
+        names.update(_all_names(step))
+    ordered = not (names & set(UNORDERED_SIGS))
+    check_index = not (names & set(NOINDEX_SIGS))
+    return ordered, check_index
+
+
+def _all_names(e):
+    out = set()
+    if isinstance(e, tuple) and e:
+        if e[0] in ("call", "daskonly", "attr", "head") and len(e) > 2 and isinstance(e[2], str):
+            out.add(e[2])
+        if e[0] == "lib":
+            out.add(e[1])
+        for sub in e[1:]:
+            if isinstance(sub, tuple):
+                out |= _all_names(sub)
+    return out
